@@ -7,9 +7,9 @@ package statsd
 // One datagram: every line is parsed or counted bad; nothing panics. len(msg) < 2^32 is what the
 // lexer needs (datagrams are at most 65535 bytes).
 //@ func (*DatagramParser).handleDatagram
-//@   requires dp != nil && l != nil && l.MetricPool != nil && dp.handler != nil && dp.logger != nil && dp.badLineLimiter != nil
+//@   requires dp != nil && l != nil && l.MetricPool != nil && 0 <= l.MetricPool.estimatedTags && l.MetricPool.estimatedTags <= 1000000 && dp.handler != nil && dp.logger != nil && dp.badLineLimiter != nil
 //@   requires len(msg) < 4294967296
-//@   loop 1 invariant l.MetricPool != nil && len(msg) < 4294967296
+//@   loop 1 invariant l.MetricPool != nil && 0 <= l.MetricPool.estimatedTags && l.MetricPool.estimatedTags <= 1000000 && len(msg) < 4294967296
 //@   modifies everything
 
 // ---- aggregator -------------------------------------------------------------------------------
@@ -268,7 +268,9 @@ package statsd
 // CloudInv: the parked state owned by CloudHandler.Run. The reported numbers of waiting hosts equal
 // the true numbers: one entry of awaitingMetrics per waiting source, one entry of awaitingEvents
 // (never empty) per source with waiting events.
-//@ pred CloudInv(ch *CloudHandler) := ch != nil && ch.awaitingMetrics != nil && ch.awaitingEvents != nil && ch.statsMetricHostsQueued == len(ch.awaitingMetrics) && ch.statsEventHostsQueued == len(ch.awaitingEvents) && (forall s gostatsd.Source :: s in ch.awaitingEvents ==> len(ch.awaitingEvents[s]) > 0) && (forall s gostatsd.Source :: s in ch.awaitingMetrics ==> ch.awaitingMetrics[s] != nil)
+//@ pred CloudInv(ch *CloudHandler) := ch != nil && ch.awaitingMetrics != nil && ch.awaitingEvents != nil && ch.statsMetricHostsQueued == len(ch.awaitingMetrics) && ch.statsEventHostsQueued == len(ch.awaitingEvents) && (forall s gostatsd.Source :: s in ch.awaitingEvents ==> len(ch.awaitingEvents[s]) > 0 && allocated(base(ch.awaitingEvents[s]))) && (forall s gostatsd.Source :: s in ch.awaitingMetrics ==> ch.awaitingMetrics[s] != nil && parkedOK(ch.awaitingMetrics[s])) && (forall s gostatsd.Source, k int :: s in ch.awaitingEvents && off(ch.awaitingEvents[s]) <= k && k < off(ch.awaitingEvents[s]) + len(ch.awaitingEvents[s]) ==> at(ch.awaitingEvents[s], k) != nil) && (forall s1 gostatsd.Source, s2 gostatsd.Source :: s1 in ch.awaitingEvents && s2 in ch.awaitingEvents && s1 != s2 ==> base(ch.awaitingEvents[s1]) != base(ch.awaitingEvents[s2]))
+// parkedOK: a parked metric map is well formed (every inner map allocated, no inner map shared between names)
+//@ pred parkedOK(mm *gostatsd.MetricMap) := wfdCounters(mm.Counters) && wfdGauges(mm.Gauges) && wfdTimers(mm.Timers) && wfdSets(mm.Sets) && setsOKm(mm)
 // parked(ch, s): something is waiting for the lookup of s
 //@ pred parked(ch *CloudHandler, s gostatsd.Source) := s in ch.awaitingMetrics || s in ch.awaitingEvents
 
@@ -613,16 +615,85 @@ package statsd
 // updateAndDispatchEvents: every parked event of the source is enriched and forwarded exactly once, in order, and the
 // wait group is debited by exactly the number forwarded.
 //@ func (*CloudHandler).updateAndDispatchEvents
-//@   requires ch != nil && ch.handler != nil
+//@   requires ch != nil && ch.handler != nil && (forall k int :: off(events) <= k && k < off(events) + len(events) ==> at(events, k) != nil)
 //@   callsite DispatchEvent requires arg1 == e && calls(DispatchEvent) == rangeindex
 //@   callsite Add requires delta == 0 - calls(DispatchEvent)
 //@   loop 1 invariant calls(DispatchEvent) == rangeindex + 1 && dispatched == rangeindex + 1 && ch.handler != nil && calls(Add) == 0
+//@   loop 1 invariant forall k int :: off(events) <= k && k < off(events) + len(events) ==> at(events, k) != nil
 //@   ensures  calls(DispatchEvent) == len(events) && calls(Add) == 1
 //@   modifies everything
 //@ func updateInplace
-//@   trusted
+//@   inline
+
+// updateAndDispatchMetrics (C11): the metrics parked for a source leave the stage once its lookup has completed --
+// every series is merged, exactly once, into a new map under the key of its new tags and source: with the instance's
+// tags appended and the instance id as source when the lookup found an instance, unchanged otherwise; the new map
+// (and nothing else) goes to the next stage, once.
+//@ func (*CloudHandler).updateAndDispatchMetrics$1
+//@   iter invariant calls(DispatchMetricMap) == 0
+//@   iter invariant mmOut != nil && wfdCounters(mmOut.Counters) && pfresh(mmOut.Counters) && (forall n string :: n in mmOut.Counters ==> pfresh(mmOut.Counters[n]))
+//@   iter invariant forall n string :: (n in iter) == old(n in iter) && iter[n] == old(iter[n])
+//@   iter invariant forall n string, t string :: n in iter ==> (t in iter[n]) == old(t in iter[n]) && iter[n][t] == old(iter[n][t])
+//@   requires mmOut != nil && wfdCounters(mmOut.Counters)
+//@   callsite MergeCounter requires receiver == mmOut && metricName == caller(metricName) && tagsKey == tagsKeyOf(counterFrom.Source, counterFrom.Tags) && counterFrom.Value == param(c).Value && counterFrom.Timestamp == param(c).Timestamp
+//@   callsite MergeCounter requires instance != nil ==> counterFrom.Source == instance.ID && len(counterFrom.Tags) == len(param(c).Tags) + len(instance.Tags) && fresh(base(counterFrom.Tags))
+//@   callsite MergeCounter requires instance == nil ==> counterFrom.Source == param(c).Source && counterFrom.Tags == param(c).Tags
+//@   ensures  [outer] forall n string :: n != metricName ==> (n in mmOut.Counters) == old(n in mmOut.Counters) && mmOut.Counters[n] == old(mmOut.Counters[n])
+//@   ensures  [outer] old(metricName in mmOut.Counters) ==> mmOut.Counters[metricName] == old(mmOut.Counters[metricName])
+//@   ensures  [outer] !old(metricName in mmOut.Counters) && (metricName in mmOut.Counters) ==> fresh(mmOut.Counters[metricName])
+//@   ensures  calls(MergeCounter) == 1 && wfdCounters(mmOut.Counters)
+//@   modifies mmOut.Counters[*], mmOut.Counters[metricName][*], c.Tags[*]
+//@ func (*CloudHandler).updateAndDispatchMetrics$2
+//@   iter invariant calls(DispatchMetricMap) == 0
+//@   floats real
+//@   iter invariant mmOut != nil && wfdGauges(mmOut.Gauges) && pfresh(mmOut.Gauges) && (forall n string :: n in mmOut.Gauges ==> pfresh(mmOut.Gauges[n]))
+//@   iter invariant forall n string :: (n in iter) == old(n in iter) && iter[n] == old(iter[n])
+//@   iter invariant forall n string, t string :: n in iter ==> (t in iter[n]) == old(t in iter[n]) && iter[n][t] == old(iter[n][t])
+//@   requires mmOut != nil && wfdGauges(mmOut.Gauges)
+//@   callsite MergeGauge requires receiver == mmOut && metricName == caller(metricName) && tagsKey == tagsKeyOf(gaugeFrom.Source, gaugeFrom.Tags) && gaugeFrom.Value == param(g).Value && gaugeFrom.Timestamp == param(g).Timestamp
+//@   callsite MergeGauge requires instance != nil ==> gaugeFrom.Source == instance.ID && len(gaugeFrom.Tags) == len(param(g).Tags) + len(instance.Tags) && fresh(base(gaugeFrom.Tags))
+//@   callsite MergeGauge requires instance == nil ==> gaugeFrom.Source == param(g).Source && gaugeFrom.Tags == param(g).Tags
+//@   ensures  [outer] forall n string :: n != metricName ==> (n in mmOut.Gauges) == old(n in mmOut.Gauges) && mmOut.Gauges[n] == old(mmOut.Gauges[n])
+//@   ensures  [outer] old(metricName in mmOut.Gauges) ==> mmOut.Gauges[metricName] == old(mmOut.Gauges[metricName])
+//@   ensures  [outer] !old(metricName in mmOut.Gauges) && (metricName in mmOut.Gauges) ==> fresh(mmOut.Gauges[metricName])
+//@   ensures  calls(MergeGauge) == 1 && wfdGauges(mmOut.Gauges)
+//@   modifies mmOut.Gauges[*], mmOut.Gauges[metricName][*], g.Tags[*]
+//@ func (*CloudHandler).updateAndDispatchMetrics$3
+//@   iter invariant calls(DispatchMetricMap) == 0
+//@   iter invariant mmOut != nil && wfdSets(mmOut.Sets) && pfresh(mmOut.Sets) && (forall n string :: n in mmOut.Sets ==> pfresh(mmOut.Sets[n])) && setsOKm(mmOut)
+//@   iter invariant forall n string :: (n in iter) == old(n in iter) && iter[n] == old(iter[n])
+//@   iter invariant forall n string, t string :: n in iter ==> (t in iter[n]) == old(t in iter[n]) && iter[n][t] == old(iter[n][t])
+//@   requires mmOut != nil && wfdSets(mmOut.Sets) && setsOKm(mmOut) && s.Values != nil
+//@   callsite MergeSet requires receiver == mmOut && metricName == caller(metricName) && tagsKey == tagsKeyOf(setFrom.Source, setFrom.Tags) && setFrom.Values == param(s).Values && setFrom.Timestamp == param(s).Timestamp
+//@   callsite MergeSet requires instance != nil ==> setFrom.Source == instance.ID && len(setFrom.Tags) == len(param(s).Tags) + len(instance.Tags) && fresh(base(setFrom.Tags))
+//@   callsite MergeSet requires instance == nil ==> setFrom.Source == param(s).Source && setFrom.Tags == param(s).Tags
+//@   ensures  [outer] forall n string :: n != metricName ==> (n in mmOut.Sets) == old(n in mmOut.Sets) && mmOut.Sets[n] == old(mmOut.Sets[n])
+//@   ensures  [outer] old(metricName in mmOut.Sets) ==> mmOut.Sets[metricName] == old(mmOut.Sets[metricName])
+//@   ensures  [outer] !old(metricName in mmOut.Sets) && (metricName in mmOut.Sets) ==> fresh(mmOut.Sets[metricName])
+//@   ensures  calls(MergeSet) == 1 && wfdSets(mmOut.Sets) && setsOKm(mmOut)
+//@   modifies mmOut.Sets[*], mmOut.Sets[metricName][*], allMapsLike(gostatsd.Set.Values), s.Tags[*]
+//@ func (*CloudHandler).updateAndDispatchMetrics$4
+//@   iter invariant calls(DispatchMetricMap) == 0
+//@   floats real
+//@   iter invariant mmOut != nil && wfdTimers(mmOut.Timers) && pfresh(mmOut.Timers) && (forall n string :: n in mmOut.Timers ==> pfresh(mmOut.Timers[n]))
+//@   iter invariant forall n string :: (n in iter) == old(n in iter) && iter[n] == old(iter[n])
+//@   iter invariant forall n string, t string :: n in iter ==> (t in iter[n]) == old(t in iter[n]) && iter[n][t] == old(iter[n][t])
+//@   requires mmOut != nil && wfdTimers(mmOut.Timers)
+//@   callsite MergeTimer requires receiver == mmOut && metricName == caller(metricName) && tagsKey == tagsKeyOf(timerFrom.Source, timerFrom.Tags) && timerFrom.Values == param(t).Values && timerFrom.SampledCount == param(t).SampledCount && timerFrom.Timestamp == param(t).Timestamp
+//@   callsite MergeTimer requires instance != nil ==> timerFrom.Source == instance.ID && len(timerFrom.Tags) == len(param(t).Tags) + len(instance.Tags) && fresh(base(timerFrom.Tags))
+//@   callsite MergeTimer requires instance == nil ==> timerFrom.Source == param(t).Source && timerFrom.Tags == param(t).Tags
+//@   ensures  [outer] forall n string :: n != metricName ==> (n in mmOut.Timers) == old(n in mmOut.Timers) && mmOut.Timers[n] == old(mmOut.Timers[n])
+//@   ensures  [outer] old(metricName in mmOut.Timers) ==> mmOut.Timers[metricName] == old(mmOut.Timers[metricName])
+//@   ensures  [outer] !old(metricName in mmOut.Timers) && (metricName in mmOut.Timers) ==> fresh(mmOut.Timers[metricName])
+//@   ensures  calls(MergeTimer) == 1 && wfdTimers(mmOut.Timers)
+//@   modifies mmOut.Timers[*], mmOut.Timers[metricName][*], allElems(float64), t.Tags[*]
+//@ func (*CloudHandler).updateAndDispatchMetrics
+//@   floats real
+//@   requires ch != nil && ch.handler != nil && mmIn != nil && setsOKm(mmIn)
+//@   requires wfdCounters(mmIn.Counters) && wfdGauges(mmIn.Gauges) && wfdTimers(mmIn.Timers) && wfdSets(mmIn.Sets)
+//@   callsite DispatchMetricMap requires mm == local(mmOut) && fresh(mm)
+//@   ensures  calls(DispatchMetricMap) == 1
 //@   modifies everything
-//@   preserves statsd.CloudHandler
 
 // ---- forwarder events (C14/C19): the message posted upstream carries the event's fields ------------------------
 //@ func (*HttpForwarderHandlerV2).DispatchEvent
